@@ -32,6 +32,7 @@ structure Cfg where
   rejectsSlash : Bool    -- the name constructors refuse / escape '/' inside a part
   defDepth : Nat         -- depth and folders-per-level the server ships with
   defPer : Nat
+  validatesRanges : Bool -- the SDK client refuses server ranges that do not partition 1..allIslands
   deriving DecidableEq, Repr
 
 /-- both sides add 1 and the server computes on 16 bits -/
